@@ -17,7 +17,9 @@ from concurrent.futures import ThreadPoolExecutor
 VERIF = os.path.dirname(os.path.dirname(os.path.abspath(__file__)))
 SPEC = os.path.join(VERIF, "spec")
 HARNESS = os.path.join(VERIF, "harness")
-REPO = "/repo"
+# the tree under verification; checks registered in MANIFEST.json use /repo itself (VERIF_REPO is only for
+# background runs against a snapshot of its HEAD)
+REPO = os.environ.get("VERIF_REPO", "/repo")
 NCPU = os.cpu_count() or 4
 
 sys.path.insert(0, os.path.join(VERIF, "lib"))
@@ -118,6 +120,9 @@ def build_driver(work, defs, tags="verif", race=False):
     shutil.copytree(os.path.join(HARNESS, "driver"), os.path.join(d, "driver"))
     for f in ("go.mod", "go.sum"):
         shutil.copy(os.path.join(HARNESS, f), d)
+    if REPO != "/repo":
+        gm = open(os.path.join(d, "go.mod")).read().replace("=> /repo", "=> " + REPO)
+        open(os.path.join(d, "go.mod"), "w").write(gm)
     # go.sum: the repository's own sums plus the harness's (apache/thrift, from the module cache)
     with open(os.path.join(d, "go.sum"), "w") as fh:
         fh.write(open(os.path.join(REPO, "go.sum")).read())
